@@ -29,6 +29,10 @@ type treeCase struct {
 	Outer  map[string]string `json:"outer,omitempty"` // decoy files placed in the parent of the project root
 	Banned []string          `json:"banned,omitempty"`
 	Mode   string            `json:"mode,omitempty"` // tree (default) | build
+	// how the root file is named when it is handed to the library: "" = absolute path (default);
+	// "empty" = unnamed file, "rel" = "root.jst", "dotrel" = "./root.jst" - the three with the
+	// project directory as working directory
+	RootName string `json:"rootname,omitempty"`
 }
 
 type errOut struct {
@@ -285,6 +289,23 @@ func treeOne(tc *treeCase) (out treeOut) {
 		}
 	}()
 	rootPath := filepath.Join(root, filepath.FromSlash(tc.Root))
+	if tc.RootName != "" {
+		if wd, err := os.Getwd(); err == nil {
+			defer func() { _ = os.Chdir(wd) }()
+		}
+		if err := os.Chdir(root); err != nil {
+			out.Scan = "setup-error: " + err.Error()
+			return out
+		}
+		switch tc.RootName {
+		case "empty":
+			rootPath = ""
+		case "rel":
+			rootPath = filepath.FromSlash(tc.Root)
+		case "dotrel":
+			rootPath = "." + string(filepath.Separator) + filepath.FromSlash(tc.Root)
+		}
+	}
 	if os.Getenv("VERIF_MARKERS") != "" {
 		_, _ = os.Stat("/verif-mark-begin-" + tc.ID + "-" + hx(root))
 		defer func() { _, _ = os.Stat("/verif-mark-end-" + tc.ID) }()
